@@ -7,7 +7,7 @@ from typing import Dict, List, Optional, Set, Tuple
 from ..absint import AV, SAME, VIEW, Interp, Summary, Write, tensor_params_of
 from ..common import calls_named, dotted, kw, loc, norm
 from ..model import AnalysisError, ClassInfo, FunctionInfo, own_nodes
-from .util import specialise_defaults, anchor_func, build_cfg, facts
+from .util import specialise_defaults, specialise_param, anchor_func, build_cfg, facts
 from ..cfg import ENTRY, reaching_defs
 from . import opcontract
 from .c14 import is_none_value
@@ -81,6 +81,22 @@ def r12_1(run):
             I.dynamic_backward_var = _worst_case_backed_grad()
         try:
             s = I.analyse(m, tensor_params=tps)
+            # a backward_var serves one operand per call: a write that is only made for one value of `index` is judged in the body specialised to
+            # that value (`if index == 0: grad = <copy>` ... `if index == 1: return` ... `grad_view[...] = 0` writes into the copy only)
+            if m.name == "backward_var" and cls is not None and "index" in m.params() and any(w_.target.has(lambda o, r: caller_owned(o, r)) for w_ in s.writes):
+                vs_ = opcontract.variables_of(run, cls)
+                if vs_ is not None and not vs_.star and 1 <= len(vs_.params) <= 6:
+                    per = []
+                    for k_ in range(len(vs_.params)):
+                        tw = specialise_param(m, "index", k_)
+                        per.append(I.analyse(tw, tensor_params=tps))
+                    bad_keys = set()
+                    for sk in per:
+                        for w_ in sk.writes:
+                            if w_.target.has(lambda o, r: caller_owned(o, r)):
+                                bad_keys.add((w_.expr, w_.via))
+                    # keep a caller-owned verdict only where some operand's specialised body confirms it
+                    s.writes = [w_ for w_ in s.writes if not w_.target.has(lambda o, r: caller_owned(o, r)) or (w_.expr, w_.via) in bad_keys]
         except RecursionError:
             raise AnalysisError(f"abstract interpreter recursion in {m.short}")
         finally:
